@@ -21,7 +21,7 @@ TIER = {
                   stride=dict(csvc=2, nusvc=1, oneclass=1, esvr=2, nusvr=2, f32=1)),
     "thorough": dict(L=5, kkt=[("csvc", 4, 3), ("oneclass", 4, 3), ("esvr", 2, 3)],
                      gen=dict(MinSmall=3, MaxSmall=5, Seeds="{1, 2, 3, 4}", MedSizes="{12, 24, 40, 60}", Lite="FALSE"),
-                     stride=dict(csvc=2, nusvc=2, oneclass=1, esvr=2, nusvr=3, f32=2)),
+                     stride=dict(csvc=1, nusvc=1, oneclass=1, esvr=1, nusvr=2, f32=1)),
 }
 FAMS = '{"csvc", "nusvc", "oneclass", "esvr", "nusvr", "f32"}'
 
@@ -136,7 +136,9 @@ def summarize(ctx, traces):
     hooks = sum(1 for t in traces if any(e["ev"].startswith("smo.") for e in t["ev"]))
     shr_cases = sum(1 for t in traces if t["inp"]["shr"])
     degen = sum(1 for t in traces for e in t["ev"]
-                if e["ev"] == "fit" and e.get("ok") and t["kind"] == "nusvc" and e.get("hasr") and e.get("rfin") and abs(e["r"]) < 50000)
+                if e["ev"] == "fit" and e.get("ok") and t["kind"] == "nusvc"
+                and ((e.get("hasr") and e.get("rfin") and abs(e["r"]) < 50000)
+                     or (e.get("afin") and sum(abs(a) // 1000 for a in e["alpha"]) > 200000)))
     platt_err = sum(1 for t in traces for e in t["ev"] if e["ev"] == "prob" and not e.get("ok"))
     iters = [e["iters"] for t in traces for e in t["ev"] if e["ev"] == "fit" and e.get("ok")]
     many = sum(1 for t in traces for e in t["ev"] if e["ev"] == "fit" and e.get("ok") and e["iters"] > (2 if t["kind"] in ("esvr", "nusvr") else 1) * len(t["inp"]["x"]))
@@ -166,7 +168,7 @@ def run(ctx):
     ctx.exhaustive = False
     cases = thin(cases, t["stride"])
     if not ctx.quick:
-        cases += random_cases(ctx, 1200)
+        cases += random_cases(ctx, 2000)
     vlib.number(cases)
     ctx.cases = len(cases)
     traces = vlib.run_harness(ctx, binp, cases, timeout=1200)
